@@ -177,3 +177,24 @@ EXTRA = {
 for _k, _v in EXTRA.items():
     _t = CLAIMED[_k]
     CLAIMED[_k] = (_t[0], _t[1] + " " + _v, _t[2], _t[3])
+
+# rules added in round 6
+EXTRA2 = {
+ "C01": "Round 6: the spent / pending list readers return every row they scan and bind the whole list; only the melt operation and the melt-quote poll may release locked inputs (call-chain census).",
+ "C02": "Round 6: melt decision table cross-registered (a release while the payment can still go out is inflation); active-keyset reads in the signer are one consistent view per message.",
+ "C03": "Round 6: storage readers carry every scanned column into the quote; a state-writing background task is started only by the quote-creating operation; no zero-value State variable in the Lightning adapters.",
+ "C05": "Round 6: call-chain census of releases; no zero-value State variable; CLN preimage decoded from the answer's own JSON key; melt-quote readers report what is stored.",
+ "C06": "Round 6: signatures saved under the outputs' unmodified B_; the request operations write no map of the long-lived mint object (fail-closed census).",
+ "C07": "Round 6: call-chain census of releases (a start-up or self-healing release does not know whether the payment went out).",
+ "C10": "Round 6: signer wiring cross-registered; restore pairs each signature with the blinding factor of the matched B_ (never the answer's position).",
+ "C12": "Round 6: the keys that count on SIG_ALL outputs are the lock keys only, never the refund keys.",
+ "C13": "Round 6: as C12.",
+ "C15": "Round 6: adapter zero-value rules and the release census cross-registered; list readers return every row.",
+ "C16": "Round 6: limits parsed from the environment are not overwritten by a later whole-struct assignment.",
+ "C17": "Round 6: every Put / Delete / Get on the spendable and pending buckets names an entry by the same key.",
+ "C18": "Round 6: Send selects and removes under the wallet mutex; the keyset listing is not served from the response cache.",
+ "C19": "Round 6: the counter accessor returns the stored counter; restore is not served from the response cache.",
+}
+for _k, _v in EXTRA2.items():
+    _t = CLAIMED[_k]
+    CLAIMED[_k] = (_t[0], _t[1] + " " + _v, _t[2], _t[3])
